@@ -466,7 +466,11 @@ def decide(cx, prop, tier, seed, t_start):
                 notes.append('listed finding %s did not reproduce on its witness (verdict %s, class %s) — not an alarm' % (k['class'], v, last['f'].get(spec.get('clscol', 'cls')) if last else None))
         # ---- sweep
         for suite, args in spec['suites']:
-            rows, seqmap, dt = run_suite(cx, work, suite, args, seed, tier)
+            try:
+                rows, seqmap, dt = run_suite(cx, work, suite, args, seed, tier)
+            except RuntimeError as e:
+                log('check: %s' % e)        # the machinery failed (e.g. observation points missing from the tree)
+                return 2
             harness_s += dt
             rows_all += rows
             seqmaps[suite] = seqmap
